@@ -80,15 +80,15 @@ def gen_case(rng, tier):
     if len(prim) > 1 and rng.random() < 0.3:
         faults.append({'source': '*', 'kind': 'absent'})
     for s in b['sources']:
-        if s['supplemental'] and rng.random() < 0.7:
+        if s['supplemental']:
             # the supplemental source cannot be loaded (for good, or once): it is reported like any other source, every primary row is
             # still in the report, and the rules either all had its rows or all had none
-            k = rng.choice(['absent', 'EACCES', 'EIO', 'EIO-once', 'EISDIR'])
-            f = {'source': s['name'], 'file': b['base'] + s['file'], 'kind': k, 'supplemental': True}
-            if k in ('EIO', 'EIO-once'):
-                f['after'] = rng.randint(0, max(1, len(files[b['base'] + s['file']]) - 1))
-                f['errno'] = rng.choice(['EIO', 'ESTALE', 'EAGAIN'])
-            faults.append(f)
+            for k in ['EIO-once', rng.choice(['absent', 'EACCES', 'EIO', 'EISDIR'])]:
+                f = {'source': s['name'], 'file': b['base'] + s['file'], 'kind': k, 'supplemental': True}
+                if k in ('EIO', 'EIO-once'):
+                    f['after'] = rng.randint(0, max(1, len(files[b['base'] + s['file']]) - 1))
+                    f['errno'] = rng.choice(['EIO', 'ESTALE', 'EAGAIN'])
+                faults.append(f)
     case = {'budget': b, 'faults': faults, 'cfg': b['base'] + 'config'}
     if rng.random() < 0.2:
         # parts of the budget are symbolic links (a synced folder, a shared rules file): a link is the file it points to
